@@ -623,8 +623,16 @@ def step (st : St) (op : List String) (obs : Json) : St × String :=
     let opk' := if (kv? op "flip").isSome then "flip" ++ (opk.drop 4).toString else opk
     (st', "ok " ++ opk' ++ ":" ++ "+".intercalate ((tags.map fun t => ((t.splitOn "/").drop 1 |> "/".intercalate)).eraseDups))
 
+/-- Verdicts are one line each. -/
+def oneLine (s : String) : String :=
+  " ".intercalate ((s.splitOn "\n").map fun l => (l.dropWhile (· == ' ')).toString)
+
+def step1 (st : St) (op : List String) (obs : Json) : St × String :=
+  let (st', v) := step st op obs
+  (st', oneLine v)
+
 def main : IO Unit := do
   let stdin ← IO.getStdin
-  jloop stdin ({} : St) step {}
+  jloop stdin ({} : St) step1 {}
 
 end KM.Drv.Proto
